@@ -892,6 +892,7 @@ def run(ctx):
     try:
         run_hist(ctx, drv, ctx.n(250, 4000))
         c06_more.run_reject(ctx, drv, ctx.n(500, 8000))
+        c06_more.run_forms(ctx, drv, ctx.n(500, 8000))
         run_exact(ctx, drv, ctx.n(1500, 40000))
         run_float(ctx, drv, ctx.n(400, 10000))
         if not ctx.search_mode:
@@ -916,6 +917,9 @@ def replay(ctx, rep):
         elif case.get("stream") == "reject":
             from props import c06_more
             c06_more.check_reject_history(ctx, drv, case)
+        elif case.get("stream") == "forms":
+            from props import c06_more
+            c06_more.check_forms_history(ctx, drv, case)
         else:
             run_indexmap(ctx, drv, max(case.get("n", 1), case.get("m", 1)))
     finally:
